@@ -71,7 +71,18 @@ InitC17 ==
   \/ \E n \in 0..3, k \in 0..3 : k <= n /\ Part = (n + k) % NParts /\           \* k bytes sent, then one byte too many, then the rest
         sc = ScArr(<< <<"bh", n>>, <<"bd", SubSeq(BlkData(n), 1, k)>>, <<"bd", [i \in 1..(n - k + 1) |-> 66]>>, <<"bd", SubSeq(BlkData(n), k + 1, n)>>, <<"r", "i32", 7>> >>)
   \/ \E n \in BigLens : Part = n % NParts /\ sc = ScArr(<< <<"bh", n>> >>)
+(* C01: every byte string up to MaxUnits + 1 bytes over one representative per character class, bare and as the data of a header, *)
+(* handled by commands that apply every decoding / expression / result API to what they get                                      *)
+C01Alpha == <<65, 49, 48, 35, 34, 39, 40, 41, 44, 59, 58, 42, 63, 32, 10, 13, 46, 45, 69, 0, 128, 64, 47, 72, 66>>
+C01Table == << <<<<88>>, 1>>, <<<<88, 63>>, 2>>, <<<<42, 67>>, 3>>, <<<<65, 58, 65>>, 4>> >>       \* X  X?  *C  A:A
+C01Scripts == << <<1, 1, 0, <<<<"x">>, <<"x">>, <<"x">>>>>>, <<2, 1, 0, <<<<"x">>, <<"r", "i32", 1>>>>>>, <<3, 0, 0, <<>>>>, <<4, 1, 1, <<<<"p", "num", TRUE>>, <<"p", "text", FALSE>>>>>> >>
+InitC01 == \E s \in Seqs(1..Len(C01Alpha), MaxUnits + 1), pre \in 0..2 :
+   /\ (Len(s) + pre) % NParts = Part
+   /\ LET body == Pick(C01Alpha, s)
+          stream == (IF pre = 0 THEN <<>> ELSE IF pre = 1 THEN <<88, 32>> ELSE <<88, 63, 32>>) \o body IN
+      sc = Sc(C01Table, C01Scripts, 16, <<stream, <<>>>>, [hdrs |-> <<>>])
 Next == UNCHANGED sc
+SpecC01 == InitC01 /\ [][Next]_sc
 SpecC17 == InitC17 /\ [][Next]_sc
 SpecC02 == InitC02 /\ [][Next]_sc
 SpecC05 == InitC05 /\ [][Next]_sc
@@ -85,7 +96,7 @@ ScriptsR == [t \in TagsR |-> LET i == CHOOSE i \in 1..Len(sc.scripts) : sc.scrip
                              [ops |-> sc.scripts[i][4], ret |-> sc.scripts[i][2] = 1, stop |-> sc.scripts[i][3] = 1]]
 ChoicesR == <<[name |-> <<66, 85, 83>>, tag |-> 5], [name |-> <<73, 77, 77, 101, 100, 105, 97, 116, 101>>, tag |-> 6],
               [name |-> <<69, 88, 84, 101, 114, 110, 97, 108>>, tag |-> 7]>>
-LastMsg == sc.chunks[Len(sc.chunks)]
+LastMsg == LET ne == {i \in 1..Len(sc.chunks) : sc.chunks[i] # <<>>} IN IF ne = {} THEN <<>> ELSE sc.chunks[CHOOSE i \in ne : \A j \in ne : j <= i]
 R == RunMsg(TableR, ScriptsR, ChoicesR, LastMsg)
 
 (* lemmas on the specification, checked for every enumerated scenario *)
